@@ -6,6 +6,7 @@
   result is the handler's error (context errors translated to their status); the only error the
   library itself synthesises is Internal for a second message on a single-response method.
 -/
+import Proofs.C01
 import Proofs.Lemmas.InprocAll
 import Proofs.Lemmas.InprocUnaryAll
 
@@ -163,3 +164,31 @@ theorem C02_unary_success_is_complete (cap : Nat) (s : St) (h : Reachable cap s)
   exact ⟨x, h1, h2⟩
 
 end InprocUnary
+
+/-! ### HTTP/1.1 client stream -/
+namespace HttpClientStream
+open InprocStream (Reason Res codeOf)
+
+/-- **HTTP: success only with the complete response.** Whenever a completed call's outcome is
+    io.EOF, the reader has read a decodable trailer frame with code OK — so a response that is cut
+    short at ANY point before (or inside) its trailer, fails the round trip, has undecodable headers
+    or an undecodable trailer is never reported as success (the body ending before a trailer is an
+    error by 4d2ee3d). -/
+theorem C02_http_eof_only_with_ok_trailer (rs : Bool) (s : St) (h : Reachable rs s) (hd : s.done = true)
+    (hf : finalOf s = .eof) : s.sawTrailerOK = true := by
+  have hi := hinv_reachable rs s h
+  exact hi.trOK (final_eof s hi hd hf).2
+
+/-- **HTTP: a trailer with a non-OK code is that code.** -/
+theorem C02_http_status_from_trailer (s : St) (c : Nat) (hr : s.rErr = none) (ht : s.tr = some (c + 1)) :
+    finalOf s = .status (c + 1) := by
+  simp [finalOf, hr, ht]
+
+/-- a body that ends before its trailer makes the reader record an error (never a clean end) -/
+theorem C02_http_truncated_is_error (s : St) (hpc : s.pc = 1) (hb : s.body = []) (he : s.bodyEnded = true) :
+    ∃ s', step s .rdDecode = some (s', []) ∧ s'.done = true ∧ s'.rErr.isSome = true := by
+  simp only [step, hpc, hb, he, complete]
+  refine ⟨_, rfl, rfl, ?_⟩
+  cases s.rErr <;> cases s.ctx <;> simp
+
+end HttpClientStream
